@@ -1437,12 +1437,18 @@ pub fn run_c17(ctx: &mut Ctx) {
             ctx.case_begin(&json!({"i": i}));
         }
         let mut rng = Rng::from_path(&[ctx.seed, 17, i]);
-        let fam = *rng.pick(&["er", "lattice", "union", "all3"]);
+        // "long-search": shapes on which the second-level procedures need many calls (fault positions deep
+        // inside a search, beyond any warm-up a look-ahead or a cache may have)
+        let fam = *rng.pick(&["er", "lattice", "union", "all3", "long-search"]);
         let case = gen_case(fam, i, ctx.seed, &lim);
-        if case.abs.n > 9 {
+        if case.abs.n > 9 && fam != "long-search" {
             continue;
         }
-        let which = rng.weighted(&[10, 2, 4, 1]);
+        // (the long-search shapes only go to the in-process fault enumeration)
+        let which = if fam == "long-search" { 0 } else { rng.weighted(&[10, 2, 4, 1]) };
+        if fam == "long-search" {
+            ctx.count("cases/long-search-shapes");
+        }
         crate::report::guarded(ctx, |ctx| match which {
             0 | 1 => {
                 if case.pres.is_usize() {
